@@ -7,7 +7,7 @@
 (*    header claims (honest outputs/post state, or the ones consistent with the forgery);    *)
 (*  - Sched = TRUE: the parallel processor is run as W workers pulling transaction indices   *)
 (*    from an atomic cursor (executeTransactionsParallel), with the shared base-state cache; *)
-(*    every interleaving of starts and completions is explored and printed (SCHED lines)     *)
+(*    every interleaving of fetches, starts and completions is explored and printed (SCHED lines)     *)
 (*    for replay through the gate hook in the worker loop.                                   *)
 EXTENDS ParallelExec, Json, TLC
 
@@ -15,11 +15,12 @@ CONSTANTS N,          \* transactions per block
           BaseMax,    \* base values 0..BaseMax
           Workers,    \* set of worker counts (Sched)
           Sched,      \* BOOLEAN
+          SchedMuts,  \* BOOLEAN: scheduled runs also on blocks with a mutated access list
           EmitCases   \* BOOLEAN: print scenarios (CASE) / schedules (SCHED)
 
-VARIABLES gen, base, txs, blk, w, cursor, running, res, cache, hist, verdict
+VARIABLES gen, base, txs, blk, w, cursor, fetched, running, res, cache, hist, verdict
 
-vars == <<gen, base, txs, blk, w, cursor, running, res, cache, hist, verdict>>
+vars == <<gen, base, txs, blk, w, cursor, fetched, running, res, cache, hist, verdict>>
 
 NoRes == [acc |-> {}, wr |-> <<>>, out |-> <<>>]
 Honest == HonestBlock(txs, base)
@@ -28,17 +29,17 @@ Forged(m) == LET r == ParResults(txs, base, m)
 Muts == Mutations(TrueBAL(txs, base), N) \ {TrueBAL(txs, base)}
 
 Init == /\ gen = 0 /\ base = [k \in Keys |-> 0] /\ txs = <<>> /\ blk = [bal |-> EmptyBAL, outs |-> <<>>, post |-> base]
-        /\ w = 0 /\ cursor = 1 /\ running = {} /\ res = <<>> /\ cache = <<>> /\ hist = <<>> /\ verdict = "none"
+        /\ w = 0 /\ cursor = 1 /\ fetched = {} /\ running = {} /\ res = <<>> /\ cache = <<>> /\ hist = <<>> /\ verdict = "none"
 
 GenBase == /\ gen = 0
            /\ base' \in [Keys -> 0..BaseMax]
            /\ gen' = 1
-           /\ UNCHANGED <<txs, blk, w, cursor, running, res, cache, hist, verdict>>
+           /\ UNCHANGED <<txs, blk, w, cursor, fetched, running, res, cache, hist, verdict>>
 
 GenTx == /\ gen \in 1..N
          /\ \E p \in Progs : txs' = Append(txs, p)
          /\ gen' = gen + 1
-         /\ UNCHANGED <<base, blk, w, cursor, running, res, cache, hist, verdict>>
+         /\ UNCHANGED <<base, blk, w, cursor, fetched, running, res, cache, hist, verdict>>
 
 (* Sched = FALSE: judge the scenario in one step *)
 Judge == /\ ~Sched /\ gen = N + 1
@@ -46,22 +47,27 @@ Judge == /\ ~Sched /\ gen = N + 1
          /\ res' = ParResults(txs, base, Honest.bal)
          /\ verdict' = IF Validate(txs, base, Honest) THEN "accepted" ELSE "rejected"
          /\ gen' = N + 3
-         /\ UNCHANGED <<base, txs, w, cursor, running, cache, hist>>
+         /\ UNCHANGED <<base, txs, w, cursor, fetched, running, cache, hist>>
 
 (* Sched = TRUE: pick the block (honest, or its access list mutated) and the worker count *)
 GenBlock == /\ Sched /\ gen = N + 1
-            /\ blk' \in {Honest} \cup {[Honest EXCEPT !.bal = m] : m \in Muts}
+            /\ blk' \in {Honest} \cup (IF SchedMuts THEN {[Honest EXCEPT !.bal = m] : m \in Muts} ELSE {})
             /\ w' \in Workers
             /\ res' = [i \in 1..N |-> NoRes]
             /\ gen' = N + 2
-            /\ UNCHANGED <<base, txs, cursor, running, cache, hist, verdict>>
+            /\ UNCHANGED <<base, txs, cursor, fetched, running, cache, hist, verdict>>
 
-(* a free worker takes the next index from the cursor *)
-Pool == [cursor |-> cursor, running |-> running]
-StartTx == /\ gen = N + 2 /\ MayStart(Pool, N, w)
-           /\ running' = Started(Pool).running /\ cursor' = Started(Pool).cursor
-           /\ hist' = Append(hist, <<"s", cursor>>)
-           /\ UNCHANGED <<gen, base, txs, blk, w, res, cache, verdict>>
+(* a free worker takes the next index from the cursor (not observable) *)
+Pool == [cursor |-> cursor, fetched |-> fetched, running |-> running]
+FetchTx == /\ gen = N + 2 /\ MayFetch(Pool, N, w)
+           /\ cursor' = Fetched(Pool).cursor /\ fetched' = Fetched(Pool).fetched
+           /\ UNCHANGED <<gen, base, txs, blk, w, running, res, cache, hist, verdict>>
+
+(* the worker holding index i begins executing it (hook event par.start) *)
+StartTx(i) == /\ gen = N + 2 /\ MayBegin(Pool, i)
+              /\ fetched' = Begun(Pool, i).fetched /\ running' = Begun(Pool, i).running
+              /\ hist' = Append(hist, <<"s", i>>)
+              /\ UNCHANGED <<gen, base, txs, blk, w, cursor, res, cache, verdict>>
 
 (* base reads of transaction i go through the shared cache *)
 Uncovered(i) == {k \in Keys : Latest(blk.bal, k, i) = <<>>}
@@ -74,16 +80,16 @@ FinishTx(i) == /\ gen = N + 2 /\ i \in running
                     /\ cache' = [k \in (DOMAIN cache) \cup (r.acc \cap Uncovered(i)) |-> base[k]]
                /\ running' = Finished(Pool, i).running
                /\ hist' = Append(hist, <<"d", i>>)
-               /\ UNCHANGED <<gen, base, txs, blk, w, cursor, verdict>>
+               /\ UNCHANGED <<gen, base, txs, blk, w, cursor, fetched, verdict>>
 
 Settle == /\ gen = N + 2 /\ AllDone(Pool, N)
           /\ verdict' = IF /\ WellFormed(blk.bal, N) /\ BuildBAL(res, N) = blk.bal /\ Outs(res, N) = blk.outs
                            /\ ApplyBAL(base, blk.bal, N) = blk.post
                         THEN "accepted" ELSE "rejected"
           /\ gen' = N + 3
-          /\ UNCHANGED <<base, txs, blk, w, cursor, running, res, cache, hist>>
+          /\ UNCHANGED <<base, txs, blk, w, cursor, fetched, running, res, cache, hist>>
 
-Next == GenBase \/ GenTx \/ Judge \/ GenBlock \/ StartTx \/ Settle \/ \E i \in 1..N : FinishTx(i)
+Next == GenBase \/ GenTx \/ Judge \/ GenBlock \/ FetchTx \/ Settle \/ \E i \in 1..N : StartTx(i) \/ FinishTx(i)
 
 Spec == Init /\ [][Next]_vars
 
@@ -104,9 +110,9 @@ WrongBALRejected ==
                                        /\ ~Validate(txs, base, Forged(m)))
 (* the result of a transaction does not depend on the schedule *)
 ScheduleIndependent ==
-  (Sched /\ gen >= N + 2) => \A i \in 1..N : (i < cursor /\ i \notin running) => res[i] = Exec(txs[i], View(base, blk.bal, i))
+  (Sched /\ gen >= N + 2) => \A i \in 1..N : (i < cursor /\ i \notin running /\ i \notin fetched) => res[i] = Exec(txs[i], View(base, blk.bal, i))
 CacheIsBase == \A k \in DOMAIN cache : cache[k] = base[k]
-WorkerBound == Cardinality(running) <= IF gen >= N + 2 THEN w ELSE 0
+WorkerBound == Cardinality(fetched \cup running) <= IF gen >= N + 2 THEN w ELSE 0
 HistLegal == (Sched /\ Done) => LegalSchedule(hist, N, w)
 
 SetToSeq(S) == LET RECURSIVE F(_) F(T) == IF T = {} THEN <<>> ELSE LET x == CHOOSE y \in T : TRUE IN <<x>> \o F(T \ {x}) IN F(S)
